@@ -252,13 +252,15 @@ pub fn render(flat: &Flat, cfg: &LayoutCfg, rng: &mut Rng) -> Rendered {
                         for _ in 0..k {
                             out.newline(rng);
                         }
+                        // indentation with blanks, tabs or a mixture
+                        let tabs = rng.below(4);
                         for _ in 0..rng.below(9) {
-                            out.text.push(' ');
+                            out.text.push(if tabs == 0 || (tabs == 1 && rng.coin()) { '\t' } else { ' ' });
                         }
                         broke = true;
                     } else {
                         for _ in 0..rng.urange(1, 3) {
-                            out.text.push(' ');
+                            out.text.push(if rng.chance(1, 8) { '\t' } else { ' ' });
                         }
                     }
                 }
